@@ -41,8 +41,8 @@ class State:
 def join(a: State, b: State) -> State:
     l1 = {}
     for i in set(a.l1) & set(b.l1):
-        (xi, xc), (yi, yc) = a.l1[i], b.l1[i]
-        l1[i] = (xi & yi, tuple(c for c in xc if c in yc))
+        if a.l1[i] == b.l1[i]:
+            l1[i] = a.l1[i]
     return State(a.facts & b.facts, {u: e for u, e in a.defs.items() if b.defs.get(u) == e}, l1)
 
 
@@ -409,8 +409,8 @@ class Analysis:
                     new.add(("idxs", v))
                     new.add(("nn", v))
             if is_int(val, 0):
-                # lemma L1 bookkeeping: Inv_m ("cursor m alive => ix <= crd_m[p_m]") holds for every leaf
-                st.l1[v] = (frozenset(u for u, r in roles.role.items() if r[0] == "cursor"), ())
+                # lemma L1 bookkeeping: the sequence of guard sets of the loops over this index since ix = 0
+                st.l1[v] = ()
             elif val == IR.Add(IR.Variable(v), IR.IntegerLiteral(1)):
                 pass  # handled by the enclosing loop's rule (l1 bookkeeping at loop exit)
             else:
@@ -583,8 +583,19 @@ class Analysis:
                     rp = roles.role[p]
                     if i not in self.level_index_class(rp[1], rp[2]):
                         return None
-                inv = st.l1.get(i, (frozenset(), ()))[0]
-                if not set(curs) <= inv:
+                # Lemma L1 needs Inv_m ("cursor m alive => i <= crd_m[p_m]") for every guarded m. An earlier
+                # loop j of the sequence preserves it if it steps all of these cursors (S' <= S_j), or if it
+                # cannot have run an iteration while all of S' are alive: some still earlier loop's exit
+                # clause (one member of S_i is exhausted) contradicts "S_j and S' all alive" (S_i <= S_j | S').
+                seq = st.l1.get(i)
+                if seq is None:
+                    return None
+                Sp = frozenset(curs)
+                for j, Sj in enumerate(seq):
+                    if Sp <= Sj:
+                        continue
+                    if any(Si and Si <= (Sj | Sp) for Si in seq[:j]):
+                        continue
                     return None
                 return ("l1", i)
         return None
@@ -644,21 +655,13 @@ class Analysis:
                 self.loop_entry_facts(n, rule, b)
                 self.visit(n.body, b)
             out = head.copy()
-            # after the loop: lemma L1 bookkeeping. A loop over guard set S preserves Inv_m for m in S;
-            # for m not in S it preserves Inv_m when "m alive => some member of S is exhausted" follows
-            # from an exit clause of an earlier loop (then this loop runs no iteration while m is alive).
+            # after the loop: append this loop's guard set to the index's sequence (lemma L1 bookkeeping)
             li = loop_info(n, self.roles)
             touched = {v for v in kir.assigned_vars(n.body) if self.roles.kind(v) == "idx"}
             if rule is not None and rule[0] in ("l1", "counting") and rule[1] in entry.l1:
                 i = rule[1]
-                inv, clauses = entry.l1[i]
                 S = frozenset(li.guarded) if rule[0] == "l1" else frozenset()
-                kept = set()
-                for m in inv:
-                    if m in S or any((m in c and c - {m} <= S) or c <= S for c in clauses if c):
-                        kept.add(m)
-                new_clauses = clauses + ((S,) if S else ())
-                out.l1[i] = (frozenset(kept), new_clauses)
+                out.l1[i] = entry.l1[i] + (S,)
                 touched.discard(i)
             for v in touched:
                 out.l1.pop(v, None)
